@@ -34,7 +34,7 @@ func TestC06(t *testing.T) {
 		}
 		svcs = append(svcs, s)
 	}
-	rcheck(t, "insert", V.N(1500, 20000), func(rt *rapid.T) {
+	rcheck(t, "insert", V.N(2500, 20000), func(rt *rapid.T) {
 		s := svcs[rapid.IntRange(0, len(svcs)-1).Draw(rt, "instance")]
 		rc := s.gRelayRequest(rt, relayOpts{Paths: []string{"backend", "route", "static"}, MaxVias: 6, MaxRRs: 4, MaxExt: 6, MaxLong: 0, MaxBody: 60, Entries: []int{0, 1, 2}})
 		res, err := s.runRequestJournal(t.Name()+"/insert", rc, func(exp mOutcome) any { return rc })
